@@ -45,11 +45,10 @@ def design_level(ctx):
         if ok0 or "Temporal properties were violated" not in out0 and "EventuallyUnchoked was violated" not in out0:
             raise vlib.MachineryError("MC_Unchoker_live_m0: fairness must FAIL without an optimistic slot")
         ctx.tlc_mc("MC_UnchokerAlg", "MC_UnchokerAlg_asis_live.cfg", timeout=600, workers=4)
-        for c in ("MC_Unchoker_n0m1.cfg", "MC_Unchoker_n2m1.cfg", "MC_Unchoker_n1m0.cfg", "MC_Unchoker_n0m0.cfg", "MC_Unchoker_n1m2.cfg",
-                  "MC_Unchoker_4.cfg"):
+        for c in ("MC_Unchoker_n0m1.cfg", "MC_Unchoker_n2m1.cfg", "MC_Unchoker_n1m0.cfg", "MC_Unchoker_n0m0.cfg", "MC_Unchoker_4.cfg"):
             ctx.tlc_mc("MC_Unchoker", c, timeout=1500, workers=6)
-        for c in ("MC_UnchokerAlg_fixed_4.cfg", "MC_UnchokerAlg_fixed_n2m1.cfg", "MC_UnchokerAlg_fixed_n0m1.cfg",
-                  "MC_UnchokerAlg_fixed_n1m0.cfg", "MC_UnchokerAlg_asis_known_4.cfg"):
+        for c in ("MC_UnchokerAlg_fixed_4.cfg", "MC_UnchokerAlg_fixed_n0m1.cfg", "MC_UnchokerAlg_fixed_n1m0.cfg",
+                  "MC_UnchokerAlg_asis_known_4.cfg"):
             ctx.tlc_mc("MC_UnchokerAlg", c, timeout=1500, workers=6)
 
 
@@ -64,7 +63,7 @@ def implementation(ctx):
     ctx.extra["tlc_generated_histories"] = len(items)
     drv = ctx.build_go("x01")
     tp = ctx.path("trace.ndjson")
-    r = ctx.run_drv(drv, ["-seed", str(ctx.seed), "-scripts", sp, "-n", str(ctx.pick(200, 4000)), "-ops", str(ctx.pick(60, 120)),
+    r = ctx.run_drv(drv, ["-seed", str(ctx.seed), "-scripts", sp, "-n", str(ctx.pick(200, 3000)), "-ops", str(ctx.pick(60, 120)),
                           "-maxpeers", str(ctx.pick(6, 8)), "-fair", str(ctx.pick(4, 40)), "-out", tp])
     ctx.extra["driver"] = json.loads(r.stdout.strip().splitlines()[-1])
     judge(ctx, tp)
